@@ -91,6 +91,7 @@ class RecCircuit(ProxiedCircuit):
             "reliable": bool(message.send_flags & PacketFlags.RELIABLE), "resent": bool(message.send_flags & PacketFlags.RESENT),
             "ackflag": bool(message.send_flags & PacketFlags.ACK), "acks": tuple(message.acks), "body": body,
             "synthetic": bool(message.synthetic),
+            "oldest": message["PingID"]["OldestUnacked"] if message.name == "StartPingCheck" else None,
         })
 
 
@@ -276,6 +277,47 @@ class Harness:
                                              allow_proxy_acks=False))
         return out
 
+    def ev_ping(self, side, which):
+        """`side` sends a StartPingCheck naming one of its own packet IDs as its oldest unacknowledged one: the peer must be told
+        the wire ID that packet travelled under (or an older still-unacknowledged packet of the proxy's own in that direction)"""
+        dm = self.dirs[side]
+        own = sorted(self.sent[side])
+        if which == "oldest" and own:
+            o = own[0]
+        elif which == "newest" and own:
+            o = own[-1]
+        else:
+            o = self.next_id[side]
+        pid = self.next_id[side]
+        self.next_id[side] = pid + 1
+        self.sent[side][pid] = {"reliable": False}
+        msg = Message("StartPingCheck", Block("PingID", PingID=pid & 0xFF, OldestUnacked=o), packet_id=pid, flags=0, direction=DIR_FROM[side])
+        if self.wire:
+            msg = DESER.deserialize(bytes(SER.serialize(msg)))
+            msg.direction = DIR_FROM[side]
+        msg.synthetic = False
+        self.c.emitted.clear()
+        self.c.collect_acks(msg)
+        try:
+            self.c.send(msg)
+        except Exception as e:
+            return [("ping:raises:%s" % type(e).__name__, "forwarding StartPingCheck raised %r" % (e,))]
+        wire = dm.eff(pid)
+        dm.max_wire = max(dm.max_wire, wire)
+        other = OTHER[side]
+        self.shown[other].append({"wire": wire, "kind": "real", "reliable": False, "orig": pid})
+        pending = [w for (t, w), rec in self.inj.items() if t == other and rec["state"] == "pending"]
+        want = min([dm.eff(o)] + pending)
+        out = []
+        em = [e for e in self.c.emitted if e["name"] == "StartPingCheck"]
+        if len(em) == 1 and em[0]["oldest"] != want:
+            out.append(("ping:oldest-unacked", "StartPingCheck from %s naming its packet %d went out with OldestUnacked %r, that packet's wire id is %d "
+                        "(proxy's own pending %r)" % (side, o, em[0]["oldest"], dm.eff(o), pending)))
+        self.flags.add("ping")
+        out.extend(self._check_emissions({V: Counter(), S: Counter()},
+                                         [{"dir": DIR_FROM[side], "pid": wire, "name": "StartPingCheck", "reliable": False, "resent": False}], allow_proxy_acks=None))
+        return out
+
     def ev_inject(self, toward, reliable):
         sender = OTHER[toward]       # the direction is the one `sender`'s packets travel in
         dm = self.dirs[sender]
@@ -418,6 +460,8 @@ class Harness:
             r = self.ev_send(ev[1], False, ev[3], packetack=True, body_mode=ev[2])
         elif kind == "drop":
             r = self.ev_send(ev[1], ev[2], ev[3], drop=True)
+        elif kind == "ping":
+            r = self.ev_ping(ev[1], ev[2])
         elif kind == "retake":
             r = self.ev_send(ev[1], False, ev[2], drop=True, retake=True)
         elif kind == "resend":
@@ -526,6 +570,7 @@ EV = st.one_of(
     st.tuples(st.just("drop"), st.sampled_from([V, S]), st.booleans(), st.sampled_from(["none", "all", "mix"])),
     st.tuples(st.just("resend"), st.sampled_from([V, S])),
     st.tuples(st.just("retake"), st.sampled_from([V, S]), st.sampled_from(["all", "mix", "oldest"])),
+    st.tuples(st.just("ping"), st.sampled_from([V, S]), st.sampled_from(["oldest", "newest", "next"])),
     st.tuples(st.just("inject"), st.sampled_from([V, S]), st.booleans()),
     st.tuples(st.just("inject"), st.sampled_from([V, S]), st.just(True)),
     st.tuples(st.just("tick"), st.sampled_from([3.1, 3.1, 1.0, 6.5, 3.0])),
